@@ -54,8 +54,9 @@ def thermo_payload(spec, lv, bid, k):
     Y /= Y.sum(axis=1)[:, None]
     # a cell without temperature and one without composition (the cleaning rule)
     if n > 2:
-        T[1] = 0.0
-        Y[2, :] = 0.0
+        # at positions that differ from box to box (a state left behind by another box of the same shape would show)
+        T[(1 + bid + 2 * lv) % n] = 0.0
+        Y[(2 + 3 * bid + lv) % n, :] = 0.0
     name = spec["fields"][k]
     if name == "temp":
         v = T
